@@ -178,7 +178,9 @@ Record sl_ok (s : side) (i : N) (x : stream) : Prop := {
   l_noest : est x = false -> rbuf x = [] /\ held x = 0 /\ (mine s i = true -> sw x = 0);
   l_user : ph x = PUser -> est x = true;
   l_pre : pre_user (ph x) = true -> est x = false /\ mine s i = false;
-  l_opening : forall b, ph x = POpening b -> b = true /\ mine s i = true
+  l_opening : forall b, ph x = POpening b -> b = true /\ mine s i = true;
+  l_posting : wst x = WPosting -> ph x = PUser;
+  l_held : forall r, wst x = WHeld r -> ph x = PUser
 }.
 
 Record local_inv (s : side) (e : endpoint) : Prop := {
@@ -246,6 +248,7 @@ Record per_id (S : side) (eS eR : endpoint) (w w' : list msg) (i : N) : Prop := 
 Record dir_inv (S : side) (eS eR : endpoint) (w w' : list msg) : Prop := {
   d_ids : ids_ok S (largestIn eR) w = true;
   d_next : nextOut eS <> 0 -> final_lg (largestIn eR) w < nextOut eS;
+  d_nextp : nextOut eS <> 0 -> mine S (nextOut eS) = true;
   d_vals : forallb (val_ok S (cW (cfg eS))) w = true;
   d_per : forall i, per_id S eS eR w w' i
 }.
@@ -456,3 +459,89 @@ Lemma is_id_ne i j m : mid m = Some j -> i <> j -> is_id i m = false.
 Proof. unfold is_id; intros -> H. now apply N.eqb_neq. Qed.
 Lemma is_id_hb i : is_id i MHeartbeat = false.
 Proof. reflexivity. Qed.
+
+(* append / cons forms for the named predicates *)
+Lemma has_any_app i w m : has_any i (w ++ [m]) = has_any i w || is_id i m.
+Proof. apply has_app. Qed.
+Lemma has_open_app i w m : has_open i (w ++ [m]) = has_open i w || is_open i m.
+Proof. apply has_app. Qed.
+Lemma has_accept_app i w m : has_accept i (w ++ [m]) = has_accept i w || is_accept i m.
+Proof. apply has_app. Qed.
+Lemma has_data_app i w m : has_data i (w ++ [m]) = has_data i w || is_data i m.
+Proof. apply has_app. Qed.
+Lemma has_incr_app i w m : has_incr i (w ++ [m]) = has_incr i w || is_incr i m.
+Proof. apply has_app. Qed.
+Lemma has_cw_app i w m : has_cw i (w ++ [m]) = has_cw i w || is_cw i m.
+Proof. apply has_app. Qed.
+Lemma has_close_app i w m : has_close i (w ++ [m]) = has_close i w || is_close i m.
+Proof. apply has_app. Qed.
+
+Lemma has_any_cons i w m : has_any i (m :: w) = is_id i m || has_any i w.
+Proof. reflexivity. Qed.
+Lemma has_open_cons i w m : has_open i (m :: w) = is_open i m || has_open i w.
+Proof. reflexivity. Qed.
+Lemma has_accept_cons i w m : has_accept i (m :: w) = is_accept i m || has_accept i w.
+Proof. reflexivity. Qed.
+Lemma has_data_cons i w m : has_data i (m :: w) = is_data i m || has_data i w.
+Proof. reflexivity. Qed.
+Lemma has_incr_cons i w m : has_incr i (m :: w) = is_incr i m || has_incr i w.
+Proof. reflexivity. Qed.
+Lemma has_cw_cons i w m : has_cw i (m :: w) = is_cw i m || has_cw i w.
+Proof. reflexivity. Qed.
+Lemma has_close_cons i w m : has_close i (m :: w) = is_close i m || has_close i w.
+Proof. reflexivity. Qed.
+
+Lemma vw_put_eq e j x : vw (put_stream j x e) j = Some (view_of x).
+Proof. rewrite vw_put. now rewrite N.eqb_refl. Qed.
+Lemma vw_put_ne e j x i : i <> j -> vw (put_stream j x e) i = vw e i.
+Proof. intros H. rewrite vw_put. apply N.eqb_neq in H. now rewrite H. Qed.
+
+Lemma vw_set_incs v e i : vw (set_incs v e) i = vw e i. Proof. reflexivity. Qed.
+Lemma vw_set_wcs v e i : vw (set_wcs v e) i = vw e i. Proof. reflexivity. Qed.
+Lemma vw_set_cls v e i : vw (set_cls v e) i = vw e i. Proof. reflexivity. Qed.
+Lemma vw_set_wlog v e i : vw (set_wlog v e) i = vw e i. Proof. reflexivity. Qed.
+Lemma vw_set_rlog v e i : vw (set_rlog v e) i = vw e i. Proof. reflexivity. Qed.
+Lemma vw_set_eofs v e i : vw (set_eofs v e) i = vw e i. Proof. reflexivity. Qed.
+Lemma vw_set_nextOut v e i : vw (set_nextOut v e) i = vw e i. Proof. reflexivity. Qed.
+Lemma vw_set_largestIn v e i : vw (set_largestIn v e) i = vw e i. Proof. reflexivity. Qed.
+Lemma vw_set_backlog v e i : vw (set_backlog v e) i = vw e i. Proof. reflexivity. Qed.
+Lemma vw_set_mclosed v e i : vw (set_mclosed v e) i = vw e i. Proof. reflexivity. Qed.
+
+Lemma incs_put j x e : incs (put_stream j x e) = incs e. Proof. reflexivity. Qed.
+Lemma wcs_put j x e : wcs (put_stream j x e) = wcs e. Proof. reflexivity. Qed.
+Lemma cls_put j x e : cls (put_stream j x e) = cls e. Proof. reflexivity. Qed.
+Lemma cfg_put j x e : cfg (put_stream j x e) = cfg e. Proof. reflexivity. Qed.
+Lemma largestIn_put j x e : largestIn (put_stream j x e) = largestIn e. Proof. reflexivity. Qed.
+Lemma nextOut_put j x e : nextOut (put_stream j x e) = nextOut e. Proof. reflexivity. Qed.
+Lemma backlog_put j x e : backlog (put_stream j x e) = backlog e. Proof. reflexivity. Qed.
+
+Lemma vw_del_eq e j : vw (set_streams (del j (streams e)) e) j = None.
+Proof. unfold vw; cbn [streams set_streams]. now rewrite get_del_eq. Qed.
+Lemma vw_del_ne e j i : i <> j -> vw (set_streams (del j (streams e)) e) i = vw e i.
+Proof. intros H. unfold vw; cbn [streams set_streams]. now rewrite get_del_ne. Qed.
+
+Lemma has_accept_mine S wS w i :
+  forallb (val_ok S wS) w = true -> has_accept i w = true -> mine S i = false.
+Proof.
+  intros Hv Ha. unfold has_accept in Ha. apply existsb_exists in Ha as (m & Hin & Hm).
+  rewrite forallb_forall in Hv. specialize (Hv _ Hin).
+  destruct m; cbn in Hm; try discriminate. apply N.eqb_eq in Hm; subst.
+  cbn in Hv. apply andb_true_iff in Hv as [_ Hv]. now apply negb_true_iff in Hv.
+Qed.
+Lemma has_open_mine S lg w i : ids_ok S lg w = true -> has_open i w = true -> mine S i = true.
+Proof.
+  revert lg. induction w as [|a t IH]; intros lg H Ho; [discriminate|].
+  cbn [has_open existsb] in Ho. apply orb_true_iff in Ho.
+  destruct a; cbn [ids_ok mid] in H; rewrite ?andb_true_iff in H; cbn [is_open] in Ho;
+    try (destruct Ho as [Ho|Ho]; [discriminate|]; eapply IH; [|exact Ho]; intuition eauto).
+  destruct Ho as [Ho|Ho].
+  - apply N.eqb_eq in Ho; subst. intuition.
+  - eapply IH; [|exact Ho]. intuition eauto.
+Qed.
+
+Lemma no_any_zero i w : has_any i w = false -> dataB i w = 0 /\ incB i w = 0.
+Proof.
+  induction w as [|a t IH]; cbn [has_any existsb]; [auto|].
+  intros H. apply orb_false_iff in H as [H1 H2]. destruct (IH H2) as [A B].
+  destruct a; cbn [dataB incB]; unfold is_id in H1; cbn [mid] in H1; rewrite ?H1, ?A, ?B; auto.
+Qed.
